@@ -1,0 +1,41 @@
+// Copyright 2024 Versity Software
+// This file is licensed under the Apache License, Version 2.0
+// (the "License"); you may not use this file except in compliance
+// with the License.  You may obtain a copy of the License at
+//
+//   http://www.apache.org/licenses/LICENSE-2.0
+//
+// Unless required by applicable law or agreed to in writing,
+// software distributed under the License is distributed on an
+// "AS IS" BASIS, WITHOUT WARRANTIES OR CONDITIONS OF ANY
+// KIND, either express or implied.  See the License for the
+// specific language governing permissions and limitations
+// under the License.
+
+package middlewares
+
+import (
+	"fmt"
+	"os"
+	"runtime/debug"
+
+	"github.com/gofiber/fiber/v2"
+	"github.com/versity/versitygw/metrics"
+	"github.com/versity/versitygw/s3api/controllers"
+	"github.com/versity/versitygw/s3log"
+)
+
+// Recover answers a panic raised while handling a request with an
+// InternalError response and keeps the gateway serving other clients.
+func Recover(logger s3log.AuditLogger, mm *metrics.Manager) fiber.Handler {
+	return func(ctx *fiber.Ctx) (err error) {
+		defer func() {
+			if r := recover(); r != nil {
+				fmt.Fprintf(os.Stderr, "panic while handling %v %v: %v\n%s\n", ctx.Method(), ctx.Path(), r, debug.Stack())
+				err = controllers.SendResponse(ctx, fmt.Errorf("internal panic: %v", r),
+					&controllers.MetaOpts{Logger: logger, MetricsMng: mm})
+			}
+		}()
+		return ctx.Next()
+	}
+}
